@@ -65,7 +65,7 @@ func (t *Task) LocalName() string {
 // WildcardMatch will check if the given string matches the name of the Task and returns any wildcard values.
 func (t *Task) WildcardMatch(name string) (bool, []string) {
 	// Convert the name into a regex string
-	regexStr := fmt.Sprintf("^%s$", strings.ReplaceAll(regexp.QuoteMeta(t.Task), `\*`, "(.*)"))
+	regexStr := fmt.Sprintf("(?s)^%s$", strings.ReplaceAll(regexp.QuoteMeta(t.Task), `\*`, "(.*)"))
 	regex := regexp.MustCompile(regexStr)
 	wildcards := regex.FindStringSubmatch(name)
 	wildcardCount := strings.Count(t.Task, "*")
